@@ -2,6 +2,7 @@ package main
 
 import (
 	"go/constant"
+	"go/token"
 	"strings"
 
 	"golang.org/x/tools/go/ssa"
@@ -224,42 +225,48 @@ func init() {
 		mem := o.One(e.Calls(ps, "(*github.com/hashicorp/memberlist.Memberlist).Members"), "members", "peers() must start from the member list", ps)
 		o.Site(mem, "peers() = members − self")
 		self := LRe(`\(\(\*am/cluster\.Peer\)\.Self\(\^?recv\)\.Name == \(\*github\.com/hashicorp/memberlist\.Node\)\.String\(.*\[i\]\)\)`, true)
-		anyTail := false
-		for _, ret := range (&Walk{Fn: ps}).FromEntry().Returns() {
-			bases, parts := e.AppendParts(ret.Results[0])
-			okBase := false
-			for _, b := range bases {
-				s := e.X(ps, b)
-				if s == e.X(ps, mem.(*ssa.Call)) || strings.HasPrefix(s, "slice("+e.X(ps, mem.(*ssa.Call))+",hi=i") {
-					okBase = true
-				}
-			}
-			o.Check(okBase, "peers-base", "peers() must return the members", ret)
-			tail := false
-			for _, p := range parts {
-				o.Guarded(p.Call, "peers-remove-guard", "removing a member from the peer list", self)
-				if p.Spread && e.X(ps, p.V) == "slice("+e.X(ps, mem.(*ssa.Call))+",lo=(i + 1))" {
-					tail = true
-				}
-			}
-			if len(parts) == 0 {
-				// the unmodified member list: only when self was not found
-				continue
-			}
-			anyTail = true
-			o.Check(tail, "peers-tail", "removing self from the member list must keep every member after it (append(nodes[:i], nodes[i+1:]...))", ret)
+		if peersByFoundIndex(o, ps, mem.(*ssa.Call), self) {
+			goto wiring
 		}
-		o.Check(anyTail, "peers-tail", "peers() never removes self from the member list", mem)
-		// once self was found it is removed: no return of the unmodified list after the match
-		for _, ec := range e.EdgesAsserting(ps, self) {
-			r := (&Walk{Fn: ps}).FromEdgeCtx(ec)
-			for _, ret := range r.Returns() {
-				for _, v := range e.RetVals(r, ret, 0) {
-					_, parts := e.AppendPartsUnder(r, v)
-					o.Check(len(parts) > 0, "peers-self-kept", "peers() can return the member list with self still in it", ret)
+		{
+			anyTail := false
+			for _, ret := range (&Walk{Fn: ps}).FromEntry().Returns() {
+				bases, parts := e.AppendParts(ret.Results[0])
+				okBase := false
+				for _, b := range bases {
+					s := e.X(ps, b)
+					if s == e.X(ps, mem.(*ssa.Call)) || strings.HasPrefix(s, "slice("+e.X(ps, mem.(*ssa.Call))+",hi=i") {
+						okBase = true
+					}
+				}
+				o.Check(okBase, "peers-base", "peers() must return the members", ret)
+				tail := false
+				for _, p := range parts {
+					o.Guarded(p.Call, "peers-remove-guard", "removing a member from the peer list", self)
+					if p.Spread && e.X(ps, p.V) == "slice("+e.X(ps, mem.(*ssa.Call))+",lo=(i + 1))" {
+						tail = true
+					}
+				}
+				if len(parts) == 0 {
+					// the unmodified member list: only when self was not found
+					continue
+				}
+				anyTail = true
+				o.Check(tail, "peers-tail", "removing self from the member list must keep every member after it (append(nodes[:i], nodes[i+1:]...))", ret)
+			}
+			o.Check(anyTail, "peers-tail", "peers() never removes self from the member list", mem)
+			// once self was found it is removed: no return of the unmodified list after the match
+			for _, ec := range e.EdgesAsserting(ps, self) {
+				r := (&Walk{Fn: ps}).FromEdgeCtx(ec)
+				for _, ret := range r.Returns() {
+					for _, v := range e.RetVals(r, ret, 0) {
+						_, parts := e.AppendPartsUnder(r, v)
+						o.Check(len(parts) > 0, "peers-self-kept", "peers() can return the member list with self still in it", ret)
+					}
 				}
 			}
 		}
+	wiring:
 		// AddState wiring
 		qb := o.One(e.Calls(s1, "(*github.com/hashicorp/memberlist.TransmitLimitedQueue).QueueBroadcast"), "queue", "the gossip send must queue a broadcast", s1)
 		o.Check(e.Arg(qb, 1) == "p0", "queue-arg", "the queued broadcast must be the message", qb)
@@ -419,4 +426,97 @@ func init() {
 		o.Check(InstrDominates(mu, nc), "register-first", "the state must be registered before its channel can broadcast", nc)
 		o.MinSites(1)
 	})
+}
+
+// peersByFoundIndex: peers() written as "find the own index, then cut it out": a variable K starts negative
+// and is given the loop index only where the own name matched; the unmodified list is returned only while K
+// is negative, otherwise append(members[:K], members[K+1:]...); the search ends early only once K is set.
+// (The index given to K has been used to index the list on that path, so it is not negative.)
+func peersByFoundIndex(o *Ob, ps *ssa.Function, mem *ssa.Call, self LitM) bool {
+	e := o.E
+	mx := e.X(ps, mem)
+	// the removal
+	var rm *ssa.Call
+	var K ssa.Value
+	for _, in := range AllInstrs(ps) {
+		c, ok := in.(*ssa.Call)
+		if !ok || !isBuiltinCall("append")(in) || len(c.Call.Args) != 2 {
+			continue
+		}
+		lo, ok1 := c.Call.Args[0].(*ssa.Slice)
+		hi, ok2 := c.Call.Args[1].(*ssa.Slice)
+		if !ok1 || !ok2 || lo.X != ssa.Value(mem) || hi.X != ssa.Value(mem) || lo.Low != nil || lo.High == nil || hi.High != nil || hi.Low == nil {
+			continue
+		}
+		if _, isPhi := lo.High.(*ssa.Phi); !isPhi {
+			continue
+		}
+		if b, ok := hi.Low.(*ssa.BinOp); ok && b.Op == token.ADD && b.X == lo.High && isIntConst(b.Y, 1) {
+			rm, K = c, lo.High
+		}
+	}
+	if rm == nil {
+		return false
+	}
+	o.Site(rm, "peers() = members[:k] + members[k+1:], k the index of the own name")
+	// the index the own name was compared at
+	var idx ssa.Value
+	for _, c := range e.Calls(ps, "(*github.com/hashicorp/memberlist.Node).String") {
+		if u, ok := c.Common().Args[0].(*ssa.UnOp); ok {
+			if ia, ok := u.X.(*ssa.IndexAddr); ok && ia.X == ssa.Value(mem) {
+				idx = ia.Index
+			}
+		}
+	}
+	if !o.Check(idx != nil, "peers-remove-guard", "peers() no longer compares the own name with the members", rm) {
+		return true
+	}
+	seen := map[ssa.Value]bool{}
+	var leaves func(v ssa.Value, pred, at *ssa.BasicBlock)
+	leaves = func(v ssa.Value, pred, at *ssa.BasicBlock) {
+		if v == idx {
+			o.Check(pred != nil && e.AltUnder(Alt{v, pred, at}, self), "peers-remove-guard", "the index to cut out is set without the own name having matched there", rm)
+			return
+		}
+		if p, ok := v.(*ssa.Phi); ok {
+			if seen[p] {
+				return
+			}
+			seen[p] = true
+			for i, ed := range p.Edges {
+				leaves(ed, p.Block().Preds[i], p.Block())
+			}
+			return
+		}
+		if k, ok := v.(*ssa.Const); ok && k.Value != nil && k.Value.Kind() == constant.Int {
+			n, _ := constant.Int64Val(k.Value)
+			o.Check(n < 0, "peers-remove-guard", "the index to cut out starts at "+itoa(int(n))+": member "+itoa(int(n))+" would be removed when the own name is not found", rm)
+			return
+		}
+		o.Check(v == idx && e.AltUnder(Alt{v, pred, at}, self), "peers-remove-guard", "the index to cut out is set to "+clip(e.X(ps, v))+" without the own name having matched there", rm)
+	}
+	leaves(K, nil, nil)
+	neg := L("("+e.X(ps, K)+" < 0)", true)
+	o.Check(e.CountLitEdges(ps, neg)+e.CountLitEdges(ps, neg.Neg()) > 0, "peers-self-kept", "peers() does not test whether the own name was found", rm)
+	o.Guarded(rm, "peers-remove-guard", "cutting a member out of the list", neg.Neg())
+	for _, ret := range (&Walk{Fn: ps}).FromEntry().Returns() {
+		switch v := ret.Results[0]; {
+		case v == ssa.Value(rm):
+		case v == ssa.Value(mem):
+			o.Guarded(ret, "peers-self-kept", "returning the member list unchanged", neg)
+		default:
+			o.Fail("peers-base", "peers() must return the members, returns "+clip(e.X(ps, v)), ret)
+		}
+	}
+	// the search: over the members from the front, left early only once the index is set
+	var search *Loop
+	for _, l := range e.Loops(ps) {
+		if c, start, ok := e.IndexLoopFrom(l); ok && c == mx && start == "0" {
+			search = l
+		}
+	}
+	if o.Check(search != nil, "peers-search", "peers() must look for the own name among all members", rm) {
+		o.LoopExitsGuarded(search, "peers-search", "the search for the own name may stop early only once it was found", neg.Neg())
+	}
+	return true
 }
